@@ -2,8 +2,8 @@ package p19
 
 import (
 	"fmt"
-	"os"
 	"math/big"
+	"os"
 	"strings"
 
 	"verifharness/core"
@@ -101,6 +101,24 @@ func genEllswift(g *core.Gen) {
 			kase(g, cls, true, fmt.Sprintf("C19 xswiftinv %s %s %d", u, x, c))
 		}
 	}
+	// r = 0 in the case&2 branch of XSwiftECInv: s = -4 g(u) / (3 u^2), x = u + s
+	for i := 0; i < g.N(20, 500); i++ {
+		u := new(big.Int).SetBytes(r.Bytes(32))
+		u.Mod(u, fieldP)
+		gu := new(big.Int).Exp(u, big.NewInt(3), fieldP)
+		gu.Add(gu, seven).Mul(gu, big.NewInt(4)).Neg(gu)
+		den := new(big.Int).Mul(u, u)
+		den.Mul(den, big.NewInt(3)).Mod(den, fieldP)
+		if den.Sign() == 0 {
+			continue
+		}
+		sv := new(big.Int).Mul(gu, new(big.Int).ModInverse(den, fieldP))
+		x := new(big.Int).Add(u, sv)
+		x.Mod(x, fieldP)
+		for c := 0; c < 8; c++ {
+			kase(g, "xswiftinv-r-zero", true, fmt.Sprintf("C19 xswiftinv %s %s %d", u.Text(16), x.Text(16), c))
+		}
+	}
 	for i := 0; i < g.N(60, 3000); i++ {
 		priv := hx(r.Bytes(32))
 		if r.Chance(1, 10) {
@@ -134,12 +152,16 @@ func genSched(g *core.Gen) {
 type pkt struct {
 	ln, seed, aad int
 	ign           bool
+	raw           int // >= 2: raw header byte (pk op only); ign must equal raw >= 128
 }
 
 func (p pkt) String() string {
 	ig := 0
 	if p.ign {
 		ig = 1
+	}
+	if p.raw >= 2 {
+		ig = p.raw
 	}
 	return fmt.Sprintf("%d:%d:%d:%d", p.ln, p.seed, ig, p.aad)
 }
@@ -283,6 +305,17 @@ func genPk(g *core.Gen) {
 	for _, sz := range sizes {
 		ps := []pkt{{ln: sz, seed: r.Intn(256), ign: r.Bool()}, {ln: 5, seed: 1}}
 		kase(g, "pk-size", true, pkLine(r.Bytes(32), pickMagic(r), r.Intn(2), ps, "-", recvPlan(ps, 0)))
+	}
+	// header bytes with other bits set: only bit 7 matters to the receiver
+	for i := 0; i < g.N(60, 1000); i++ {
+		ps := randPkts(r, 1+r.Intn(5), 0, r.Chance(1, 3))
+		for j := range ps {
+			if r.Chance(1, 2) {
+				ps[j].raw = int(r.Pick(2, 3, 64, 127, 129, 130, 192, 255, int64(2+r.Intn(254))))
+				ps[j].ign = ps[j].raw >= 128
+			}
+		}
+		kase(g, "pk-raw-header", true, pkLine(r.Bytes(32), pickMagic(r), r.Intn(2), ps, "-", recvPlan(ps, r.Intn(2))))
 	}
 	// wrong AAD on the first packet
 	for i := 0; i < g.N(60, 1000); i++ {
